@@ -13,6 +13,8 @@ open Proto
     rm <c> <id>                           ok | AttributeError
     fns <c>                               <id list> | AttributeError
     read <c>                              <v|_> <trace>
+    tv super <k> <c> | tv dict <s> <c>    ok | AttributeError          `super(K, C).h` / `S.__dict__["h"].__get__(None, C)` (or an instance holding an explicit value)
+    rv super <k> <c> | rv dict <s> <c>    <v|_> <trace> | AttributeError     the same on a fresh instance: the value is computed
     add <c> <tier> 0 need <v> <0|1>       ok <id> | AttributeError     (plain implementation that needs the input; 1: takes `cycle`)
     add <c> <tier> 1 wneed <k> <d|_>      ok <id> | AttributeError     (wrapper `wrap k d` that reads the input before its yield)
     obj <o> <c>                           ok          object #o of class c, kept; no input
@@ -55,6 +57,10 @@ def parseOp : List String → Option Op
   | ["rm", c, i] => do pure (.remove (← nat? c) (← nat? i))
   | ["fns", c] => do pure (.readFns (← nat? c))
   | ["read", c] => do pure (.read (← nat? c))
+  | ["tv", "super", k, c] => do pure (.touchVia (.super (← nat? k)) (← nat? c))
+  | ["tv", "dict", s, c] => do pure (.touchVia (.dict (← nat? s)) (← nat? c))
+  | ["rv", "super", k, c] => do pure (.readVia (.super (← nat? k)) (← nat? c))
+  | ["rv", "dict", s, c] => do pure (.readVia (.dict (← nat? s)) (← nat? c))
   | _ => none
 
 def showEv : Ev → String
@@ -91,6 +97,12 @@ def answer (st : State) : Op → String
   | .read c =>
     let r := readOut st c
     " ".intercalate (showOptNat r.1 :: r.2.map showEv)
+  | .touchVia v c => match viaLookup st v c with
+    | some _ => "ok"
+    | none => "AttributeError"
+  | .readVia v c => match readViaOut ownerReuse st v c with
+    | some r => " ".intercalate (showOptNat r.1 :: r.2.map showEv)
+    | none => "AttributeError"
   | _ => "ok"
 
 /-- what a use of the object `ob` answers (computed on the state BEFORE the step) -/
